@@ -42,6 +42,38 @@ with atstr (a : argtail) : str :=
   | ATCons _ e more => b_ ", " ++ estr e ++ atstr more
   end.
 
+(* caseLabel (parser/statement_parser.go): the rendering the duplicate-case test compares.  It is
+   Node.String() without comments, with EVERY string concatenation spelled with its operator:
+   `"a" "b"` and `"a" + "b"` are the same label, at any depth. *)
+Fixpoint clabel (e : expr) : str :=
+  match e with
+  | EIdent t => lit t
+  | EBool t => if ttype_eqb (typ t) T_TRUE then b_ "true" else b_ "false"
+  | EInt t _ => lit t
+  | EFloat t => lit t
+  | ERTime t => lit t
+  | EString _ v => b_ """" ++ v ++ b_ """"
+  | ELong o _ _ v => b_ "{" ++ lit o ++ b_ """" ++ v ++ b_ """" ++ lit o ++ b_ "}"
+  | EPrefix op r => b_ "(" ++ lit op ++ clabel r ++ b_ ")"
+  | EGroup _ r _ => b_ "(" ++ clabel r ++ b_ ")"
+  | EIfExp _ _ c _ t _ e _ => b_ "if(" ++ clabel c ++ b_ ", " ++ clabel t ++ b_ ", " ++ clabel e ++ b_ ")"
+  | EInfix l _ explicit r =>
+      b_ "(" ++ clabel l ++ (if explicit then b_ " +" else []) ++ b_ " " ++ clabel r ++ b_ ")"
+  | EConcat l r => b_ "(" ++ clabel l ++ b_ " + " ++ clabel r ++ b_ ")"
+  | EPostfix l op => clabel l ++ lit op
+  | ECall f _ a _ => lit f ++ b_ "(" ++ alabel a ++ b_ ")"
+  end
+with alabel (a : args) : str :=
+  match a with
+  | ANone => []
+  | ASome e more => clabel e ++ atlabel more
+  end
+with atlabel (a : argtail) : str :=
+  match a with
+  | ATNil => []
+  | ATCons _ e more => b_ ", " ++ clabel e ++ atlabel more
+  end.
+
 Section Stmt.
 Variable fok : str -> bool.
 Notation parse_expr := (parse_expr fok).
@@ -203,11 +235,11 @@ Definition psimple (st : pstate) : option (pres (stmt * pstate)) :=
 Definition is_default (c : scase) : bool :=
   match c with Case (CDefault _) _ _ _ => true | _ => false end.
 
-(* clause.Test.Operator == o.Test.Operator && clause.Test.Right.String() == o.Test.Right.String() *)
+(* clause.Test.Operator == o.Test.Operator && caseLabel(clause.Test.Right) == caseLabel(o.Test.Right) *)
 Definition dup_case (a b : scase) : bool :=
   match a, b with
-  | Case (CCase _ (CTEq x)) _ _ _, Case (CCase _ (CTEq y)) _ _ _ => str_eqb (estr x) (estr y)
-  | Case (CCase _ (CTRegex _ x)) _ _ _, Case (CCase _ (CTRegex _ y)) _ _ _ => str_eqb (estr x) (estr y)
+  | Case (CCase _ (CTEq x)) _ _ _, Case (CCase _ (CTEq y)) _ _ _ => str_eqb (clabel x) (clabel y)
+  | Case (CCase _ (CTRegex _ x)) _ _ _, Case (CCase _ (CTRegex _ y)) _ _ _ => str_eqb (clabel x) (clabel y)
   | _, _ => false
   end.
 
